@@ -18,7 +18,8 @@ RULE = ("Hypothesis-generated (objective incl. constant/step/quantised families,
         "the items delivered to the listener. Non-trivial: >=8 trials and at least one trial inserted between "
         "two evaluated trials (both neighbours relinked). Distinct = distinct case digest.")
 ASSUMPTIONS = [
-    "refineSolution=False (local refinement rewrites the best trial in place; that is C04/C05 territory)",
+    "the evaluations of a local refinement are not trials of the record (the record lists the global trials); which "
+    "evaluations of a refining Solve are global is read from numberOfGlobalTrials",
     "interval length tolerance 1e-12 relative; stored point must be bit-equal to a fresh Evolvent's image",
     "several Solver instances have usually run in the same process before a case (shared-default regressions "
     "show up as aliasing between cases)",
@@ -56,6 +57,18 @@ def cases(draw):
         case["decoy"] = draw(gen.problem_recipe(dims=(1, 2, 3), styles=True))
     # an observer reads the record between the calls and asks the solver's evolvent for the preimage of stored points
     case["observer"] = draw(st.integers(0, 3)) == 0
+    how = draw(st.sampled_from(["no", "no", "no", "solve", "explicit", "both"]))
+    if how in ("solve", "both") and params["eps"] >= 1e-12:
+        # refineSolution=True: every Solve ends with the local refinement; the refined optimum is a trial of its own,
+        # the record keeps listing exactly the global trials
+        case["refine"] = True
+    if how in ("explicit", "both") and case["ops"]:
+        # Solver.DoLocalRefinement between the calls, the search going on afterwards
+        ops = list(case["ops"])
+        ops.insert(draw(st.integers(1, len(ops))), "refine")
+        if draw(st.booleans()):
+            ops.append(draw(st.integers(1, 20)))
+        case["ops"] = ops
     if draw(st.integers(0, 15)) == 7 and params["eps"] >= 1e-12:
         # a shipped painter is attached (it draws, and probes the objective, when the method stops)
         case["painter"] = draw(painters.static_painter_specs(recipe["n"]))
@@ -65,7 +78,7 @@ def cases(draw):
 
 
 def body(case):
-    run = Run(case["recipe"], case["params"])
+    run = Run(case["recipe"], case["params"], refine=bool(case.get("refine")))
     cleanup = painters.attach(run, case["painter"]) if case.get("painter") else None
     try:
         return _drive(case, run)
@@ -79,19 +92,32 @@ def _drive(case, run):
     # queue into a loop that evaluates nothing: bound every call by executed lines
     run.line_guard = case["params"]["eps"] < 1e-12 or bool(case["recipe"].get("huge"))
     steps = 0
+    glog = []          # the evaluations of the global search (those of a local refinement are no trials of the record)
+    log = run.problem.log
     for op in case["ops"]:
+        before = len(log)
         try:
             if op == "solve":
+                g0 = run.results().numberOfGlobalTrials if log else 0
                 run.solve()
+                glog += log[before:before + (run.results().numberOfGlobalTrials - g0)]
+            elif op == "refine":
+                if not log:
+                    continue
+                import contextlib
+                with contextlib.redirect_stdout(run.out):
+                    run.solver.DoLocalRefinement(5)
             else:
                 run.step(op)
+                glog += log[before:]
         except Exception as e:
             if "outside of interval" not in str(e):
                 raise
             # the method refused a degenerate interval inside a batch: nothing was evaluated for it, so the
             # record must still be exactly the completed trials
-            check_search_data(run, who="after DoGlobalIteration(%r) stopped at the float resolution: " % (op,))
-            return len(run.problem.log) >= 8, ["N=%d" % run.n, "float-resolution-stop"]
+            glog += log[before:]
+            check_search_data(run, log=glog, who="after DoGlobalIteration(%r) stopped at the float resolution: " % (op,))
+            return len(glog) >= 8, ["N=%d" % run.n, "float-resolution-stop"]
         steps += 1
         if case.get("decoy") is not None:
             if steps == 1:
@@ -117,8 +143,8 @@ def _drive(case, run):
             if stored:
                 best = run.results().bestTrials[0]
                 ev.GetPreimages(best.point.floatVariables)
-        items = run.rec.items if len(run.rec.items) == len(run.problem.log) else None
-        check_search_data(run, items=items, who="after call %d (%r): " % (steps, op))
+        items = run.rec.items if len(run.rec.items) == len(glog) else None
+        check_search_data(run, log=glog, items=items, who="after call %d (%r): " % (steps, op))
     hist = run.history()
     model, info = replay_history(run.n, case["params"]["r"], hist, check_rule=False)
     # a trial inserted between two evaluated trials: neither neighbour is an end point
@@ -146,6 +172,9 @@ def _drive(case, run):
         classes_extra.append("painter=" + case["painter"]["kind"])
     if case["recipe"].get("huge"):
         classes_extra.append("values-of-magnitude-1e150-and-more")
+    if case.get("refine") or "refine" in case["ops"]:
+        classes_extra.append("local-refinement:" + ("+".join((["in-Solve"] if case.get("refine") else []) +
+                                                             (["explicit"] if "refine" in case["ops"] else []))))
     classes = classes_extra + ["N=%d" % run.n, "calls=%d" % min(steps, 5),
                "trials>=8" if len(hist) >= 8 else "trials<8", "interior-insert" if between else "no-interior-insert"]
     return nontrivial, classes, {"case": case, "trials": len(hist), "interior_inserts": between}
